@@ -23,7 +23,7 @@ class JudgeRun:
         try:
             with os.fdopen(fd, "w") as f:
                 for e in events:
-                    f.write(json.dumps(e) + "\n")
+                    f.write(json.dumps({k: v for k, v in e.items() if not k.startswith("_") and not (k == "lhs" and e.get("kind") == "project")}) + "\n")
             run = tlc.TLCRun(self.module, workers=workers, env={"TRACE_FILE": path}, timeout=timeout)
             for rec in run:
                 if rec is not None and "id" in rec:
